@@ -25,15 +25,32 @@ theorem RetE.of_ne {o : Outcome} (h : ∀ v, o ≠ .ret v) : RetE o := fun v hv 
 /-- the layer a guarded `<%call>` hands to its callee -/
 theorem call_layer_rel (sc : Scope) (bodyArgs : List Name) (body : Tmpl) (mod : Nat)
     (hg : Good (bodyScope sc body) false false true true body = true)
-    (hcb : GoodCB { sc with top := false, cd := false } body = true) :
+    (hcb : GoodCB { sc with top := false, cd := false } body = true) (hnd : nodupB (callNames body) = true) :
     LayerRel ⟨collectDefs (.seq (callDefs { sc with top := false, cd := false } body)
                 (.defn 0 bodyArgs { ownLoops := ownsLoops sc body, deco := false, lex := true }
                    (.seq (.seq (bodyHoist (bodyScope sc body) body) (.prim .getWriter))
                          (.seq (stmts (bodyScope sc body) body) (.ret emptyStr))))), mod⟩
       ((0, ⟨bodyArgs, noFlags, body, .body, mod⟩) :: Spec.callDefsOf mod body) :=
-  ⟨sc, bodyArgs, body, by simp [collectDefs, bodyFun], rfl, hg, hcb⟩
+  ⟨sc, bodyArgs, body, by simp [collectDefs, bodyFun], rfl, hg, hcb, hnd⟩
 
-theorem rc_stmt (n : Nat) (ih : ∀ m, m < n + 1 → RC ts k m) : StmtRef ts k (n + 1) := by
+/-- a `<%block>` is rendered in place: the call of its callable, without arguments and without content -/
+theorem snodes_block (C : Spec.Cfg) (m : Nat) (name : Name) (anon : Bool) (fl : DefFlags) (body : Tmpl)
+    (E : Spec.Env) (cnt : Nat) :
+    Spec.snodes C (m + 2) (.block name anon fl body) E cnt =
+      (match Spec.seval C (m + 2) (.call name []) E [] cnt with
+       | ⟨.val _, o, c1⟩ => ⟨.normal, o, c1, E.vars⟩
+       | ⟨.exc e, o, c1⟩ => ⟨.exc e, o, c1, E.vars⟩
+       | ⟨.timeout, o, c1⟩ => ⟨.timeout, o, c1, E.vars⟩) := by
+  simp only [Spec.snodes, Spec.seval, Spec.sargs]
+  cases Spec.resolveS C E name with
+  | none => rfl
+  | some fn =>
+    simp only
+    generalize Spec.sinvoke C (m + 1) fn [] [] E [] cnt = x
+    obtain ⟨r, o, c1⟩ := x
+    cases r <;> simp
+
+theorem rc_stmt (hG : GoodAll ts) (n : Nat) (ih : ∀ m, m < n + 1 → RC ts k m) : StmtRef ts k (n + 1) := by
   intro t sc il bf cv cb l σ E i top rest o l' σ' hg hR hn hil hl hσ hb hw he ho
   have A := ih n (Nat.lt_succ_self n)
   have G := all_good (progOf ts k) (codegen_cfg_ok ts k)
@@ -62,8 +79,118 @@ theorem rc_stmt (n : Nat) (ih : ∀ m, m < n + 1 → RC ts k m) : StmtRef ts k (
   | def_ name ps fl body =>
     simp only [stmts, exec, Prod.mk.injEq] at he; obtain ⟨rfl, rfl, rfl⟩ := he
     exact leaf [] .normal (by simp [hb]) rfl rfl (Keep.refl _) rfl (RetE.of_ne (by simp)) (fun m => by simp [Spec.snodes])
-  | block _ _ _ _ => simp [Good] at hg
-  | include_ _ => simp [Good] at hg
+  | block name anon fl body =>
+    simp only [Good, Bool.and_eq_true, Bool.not_eq_true', decide_eq_true_eq] at hg
+    have hge : GoodE il false cv (.call name []) = true := by
+      have : name ≠ 0 := by
+        intro h0; have h2 := hg.1.1.1.1.2; rw [h0] at h2; exact absurd h2 (by decide)
+      simp [GoodE, GoodArgs, this]
+    simp only [stmts, exec] at he
+    generalize hx : eval (progOf ts k) n (.call name []) l σ = y at he
+    obtain ⟨r, σ1⟩ := y
+    have g := A.eval _ il false cv l σ E [] i top rest r σ1 hge hR hN (fun _ => hn) hil hl hσ hb hx
+    cases r with
+    | timeout => simp only [Prod.mk.injEq] at he; exact absurd he.1.symm ho
+    | val v =>
+      simp only [Prod.mk.injEq] at he; obtain ⟨rfl, rfl, rfl⟩ := he
+      obtain ⟨o1, hb1, p1, m1, e1⟩ := g (by simp)
+      refine ⟨o1, E.vars, hb1, ⟨m1 + 2, fun m hm => ?_⟩, hR.vars, Keep.refl _, RetE.of_ne (by simp)⟩
+      obtain ⟨m, rfl⟩ := Nat.exists_eq_add_of_le' (by omega : 2 ≤ m)
+      have := e1 (m + 2) (by omega)
+      simp only at this
+      show Spec.snodes ⟨ts, k⟩ (m + 2) _ E σ.cnt = _
+      rw [snodes_block, this]; simp [convV, conv]
+    | exc x =>
+      simp only [Prod.mk.injEq] at he; obtain ⟨rfl, rfl, rfl⟩ := he
+      obtain ⟨o1, hb1, p1, m1, e1⟩ := g (by simp)
+      refine ⟨o1, E.vars, hb1, ⟨m1 + 2, fun m hm => ?_⟩, hR.vars, Keep.refl _, RetE.of_ne (by simp)⟩
+      obtain ⟨m, rfl⟩ := Nat.exists_eq_add_of_le' (by omega : 2 ≤ m)
+      have := e1 (m + 2) (by omega)
+      simp only at this
+      show Spec.snodes ⟨ts, k⟩ (m + 2) _ E σ.cnt = _
+      rw [snodes_block, this]; simp [convV, conv]
+  | include_ j =>
+    -- `runtime._include_file(context, <template j>, …)`: the body of template `j` as a callable of its own module
+    simp only [stmts, exec] at he
+    rcases n with _ | n1
+    · simp only [eval, Prod.mk.injEq] at he; exact absurd he.1.symm ho
+    simp only [eval, progOf, List.getElem?_map] at he
+    cases hts : ts[j]? with
+    | none =>
+      simp only [hts, Option.map_none, Prod.mk.injEq] at he
+      obtain ⟨rfl, rfl, rfl⟩ := he
+      refine ⟨[], E.vars, by simp [hb], ⟨2, fun m hm => ?_⟩, hR.vars, Keep.refl _, RetE.of_ne (by simp)⟩
+      obtain ⟨m, rfl⟩ := Nat.exists_eq_add_of_le' (by omega : 2 ≤ m)
+      simp [Spec.snodes, Spec.sinclude, hts, conv]
+    | some p =>
+      obtain ⟨t, ieh⟩ := p
+      simp only [hts, Option.map_some, codegenModule] at he
+      have hgt : GoodTop t = true := hG (t, ieh) (List.mem_of_getElem? hts)
+      generalize hx : invoke _ n1 _ [] _ σ = y at he
+      obtain ⟨r, σ1⟩ := y
+      have hx' : invoke (progOf ts k) n1 ⟨⟨[], ⟨refsLoop t, false, false⟩, codegen t⟩, [], j⟩ [] { l with funs := [] } σ
+          = (r, σ1) := hx
+      have hto : r ≠ .timeout := by
+        rintro rfl
+        cases ieh <;> simp only [Prod.mk.injEq] at he <;> exact ho he.1.symm
+      obtain ⟨o1, hb1, p1, m1, e1⟩ := (ih n1 (by omega)).invoke _ ⟨[], noFlags, t, .main, j⟩ [] [] { l with funs := [] } σ
+        { E with defs := [] } [] i top rest r σ1 (body_funrel t j hgt) rfl (fun h => by cases h) (fun h => by cases h)
+        ⟨hR.vars, hR.nb, hR.nf, fun x _ => by simp [lookup, OptRel]⟩ hN ⟨fun p hp => (by cases hp), hl.caller, hl.lexc⟩
+        NSOK_nil hσ hb hx' hto
+      -- the specification side, for large fuel
+      have spec : ∀ m, m1 + 2 ≤ m → Spec.snodes ⟨ts, k⟩ m (.include_ j) E σ.cnt =
+          (match ieh, convV r with
+            | some b, .exc e => (match (if b then Spec.SV.val [] else Spec.SV.exc e) with
+                | .val _ => ⟨.normal, o1 ++ ['[', 'H', ']'], σ1.cnt, E.vars⟩
+                | .exc e' => ⟨.exc e', o1 ++ ['[', 'H', ']'], σ1.cnt, E.vars⟩
+                | .timeout => ⟨.timeout, o1 ++ ['[', 'H', ']'], σ1.cnt, E.vars⟩)
+            | _, .val _ => ⟨.normal, o1, σ1.cnt, E.vars⟩
+            | _, .exc e => ⟨.exc e, o1, σ1.cnt, E.vars⟩
+            | _, .timeout => ⟨.timeout, o1, σ1.cnt, E.vars⟩) := by
+        intro m hm
+        obtain ⟨m, rfl⟩ := Nat.exists_eq_add_of_le' (by omega : 2 ≤ m)
+        have a1 := e1 m (by omega)
+        simp only at a1
+        simp only [Spec.snodes, Spec.sinclude, hts, a1]
+        cases ieh <;> cases r <;> simp [convV] <;> (try (rename_i b _; cases b <;> simp))
+      cases r with
+      | timeout => exact absurd rfl hto
+      | val v =>
+        have he2 : (o, l', σ') = (.normal, l, σ1) := by cases ieh <;> exact he.symm
+        simp only [Prod.mk.injEq] at he2
+        obtain ⟨rfl, rfl, rfl⟩ := he2
+        refine ⟨o1, E.vars, hb1, ⟨m1 + 2, fun m hm => ?_⟩, hR.vars, Keep.refl _, RetE.of_ne (by simp)⟩
+        show Spec.snodes ⟨ts, k⟩ m (.include_ j) E σ.cnt = _
+        rw [spec m hm]
+        cases ieh <;> simp [convV, conv]
+      | exc e =>
+        cases ieh with
+        | none =>
+          simp only [Prod.mk.injEq] at he
+          obtain ⟨rfl, rfl, rfl⟩ := he
+          refine ⟨o1, E.vars, hb1, ⟨m1 + 2, fun m hm => ?_⟩, hR.vars, Keep.refl _, RetE.of_ne (by simp)⟩
+          show Spec.snodes ⟨ts, k⟩ m (.include_ j) E σ.cnt = _
+          rw [spec m hm]
+          simp [convV, conv]
+        | some b =>
+          simp only at he
+          cases b with
+          | true =>
+            simp only [if_true, Prod.mk.injEq] at he
+            obtain ⟨rfl, rfl, rfl⟩ := he
+            refine ⟨o1 ++ ['[', 'H', ']'], E.vars, by simp [hb1, writeTop], ⟨m1 + 2, fun m hm => ?_⟩, hR.vars, Keep.refl _,
+              RetE.of_ne (by simp)⟩
+            show Spec.snodes ⟨ts, k⟩ m (.include_ j) E σ.cnt = _
+            rw [spec m hm]
+            simp [convV, conv]
+          | false =>
+            simp only [Bool.false_eq_true, if_false, Prod.mk.injEq] at he
+            obtain ⟨rfl, rfl, rfl⟩ := he
+            refine ⟨o1 ++ ['[', 'H', ']'], E.vars, by simp [hb1, writeTop], ⟨m1 + 2, fun m hm => ?_⟩, hR.vars, Keep.refl _,
+              RetE.of_ne (by simp)⟩
+            show Spec.snodes ⟨ts, k⟩ m (.include_ j) E σ.cnt = _
+            rw [spec m hm]
+            simp [convV, conv]
   | ret =>
     simp only [stmts, exec] at he
     rcases n with _ | n1
@@ -148,7 +275,7 @@ theorem rc_stmt (n : Nat) (ih : ∀ m, m < n + 1 → RC ts k m) : StmtRef ts k (
           · exact absurd rfl h
         subst ho'
         -- the state with the pending caller
-        have hlay := call_layer_rel sc bodyArgs body l.mod hg.2 hg.1.2
+        have hlay := call_layer_rel sc bodyArgs body l.mod hg.1.2 hg.1.1.2 hg.2
         have hσ1 : StOK { σ with next := ⟨collectDefs
         (.seq (callDefs { sc with top := false, cd := false } body)
           (.defn 0 bodyArgs { ownLoops := ownsLoops sc body, deco := false, lex := true }
@@ -173,7 +300,7 @@ theorem rc_stmt (n : Nat) (ih : ∀ m, m < n + 1 → RC ts k m) : StmtRef ts k (
         generalize hx : eval (progOf ts k) n3 e _ _ = y at hwr
         obtain ⟨r, σ1⟩ := y
         have g := (ih n3 (by omega)).eval e il true cv _ _ E
-          (((0, ⟨bodyArgs, noFlags, body, .body, E.mod⟩) :: Spec.callDefsOf E.mod body) :: E.caller) i top rest r σ1 hg.1.1 hR1
+          (((0, ⟨bodyArgs, noFlags, body, .body, E.mod⟩) :: Spec.callDefsOf E.mod body) :: E.caller) i top rest r σ1 hg.1.1.1 hR1
           (NSRel.cons (by rw [← hR.mod]; exact hlay) hR.lcaller) (fun h => by cases h) hil hl' hσ1 hb hx
         cases r with
         | timeout => simp only [Prod.mk.injEq] at hwr; exact absurd hwr.1.symm htow
@@ -256,13 +383,13 @@ theorem rc_stmt (n : Nat) (ih : ∀ m, m < n + 1 → RC ts k m) : StmtRef ts k (
       obtain ⟨o1, hb1, p1, m1, e1⟩ := g (by simp)
       have hσ1 := (bg (by simp)).ok
       have hn1 : σ1.next = [] := by rw [p1.2.2]; exact hn
-      have branch : ∀ tx, Good sc il bf cv false tx = true → exec (progOf ts k) n (stmts sc tx) l σ1 = (o, l', σ') →
+      have branch : ∀ tx, Good sc il bf cv cb tx = true → exec (progOf ts k) n (stmts sc tx) l σ1 = (o, l', σ') →
           (if v.isEmpty then tb else ta) = tx →
           ∃ out vars', σ'.bufs = (i, top ++ out) :: rest ∧
             Ev (fun m => Spec.snodes ⟨ts, k⟩ m (.ite cnd ta tb) E σ.cnt) ⟨conv o, out, σ'.cnt, vars'⟩ ∧
             VarsAgree l' vars' ∧ Keep l l' ∧ RetE o := by
         intro tx hcx hex htx
-        obtain ⟨out2, v2, hb2, ⟨m2, e2⟩, hv2, hk2, hre2⟩ := A.stmt tx sc il bf cv false l σ1 E i (top ++ o1) rest o l' σ' hcx
+        obtain ⟨out2, v2, hb2, ⟨m2, e2⟩, hv2, hk2, hre2⟩ := A.stmt tx sc il bf cv cb l σ1 E i (top ++ o1) rest o l' σ' hcx
           (hR.of_post hb hb1 p1) hn1 hil hl hσ1 hb1 hw hex ho
         refine ⟨o1 ++ out2, v2, by simp [hb2], ⟨max m1 m2 + 1, fun m hm => ?_⟩, hv2, hk2, hre2⟩
         obtain ⟨m, rfl⟩ := Nat.exists_eq_add_of_le' (by omega : 1 ≤ m)
@@ -279,7 +406,7 @@ theorem rc_stmt (n : Nat) (ih : ∀ m, m < n + 1 → RC ts k m) : StmtRef ts k (
     simp only [stmts, exec] at he
     generalize hx : exec (progOf ts k) n (stmts sc ta) l σ = y at he
     obtain ⟨o1, l1, σ1⟩ := y
-    have g1 := A.stmt ta sc il bf cv false l σ E i top rest o1 l1 σ1 hg.1 hR hn hil hl hσ hb hw hx
+    have g1 := A.stmt ta sc il bf cv cb l σ E i top rest o1 l1 σ1 hg.1 hR hn hil hl hσ hb hw hx
     have b1 := (G n).exec _ l σ i top rest ((emits ta).stmts sc) hl hσ hb hw o1 l1 σ1 hx
     have stop : o1 ≠ .timeout → (∀ x, o1 ≠ .exc x) → o = o1 → l' = l1 → σ' = σ1 →
         ∃ out vars', σ'.bufs = (i, top ++ out) :: rest ∧
@@ -298,7 +425,7 @@ theorem rc_stmt (n : Nat) (ih : ∀ m, m < n + 1 → RC ts k m) : StmtRef ts k (
       simp only at he
       obtain ⟨out, v1, hb1, ⟨m1, e1⟩, hv1, hk1, _⟩ := g1 (by simp)
       obtain ⟨bb, hl1, hw1⟩ := b1 (by simp)
-      obtain ⟨out2, v2, hb2, ⟨m2, e2⟩, hv2, hk2, hre2⟩ := A.stmt tb sc il bf cv false l1 σ1 { E with vars := v1 } i _ rest o l' σ'
+      obtain ⟨out2, v2, hb2, ⟨m2, e2⟩, hv2, hk2, hre2⟩ := A.stmt tb sc il bf cv cb l1 σ1 { E with vars := v1 } i _ rest o l' σ'
         hg.2 (hR.of_bal hb bb hk1 hv1) (bal_next_nil bb hn) hil hl1 bb.ok hb1 hw1 he ho
       refine ⟨out ++ out2, v2, by simp [hb2], ⟨max m1 m2 + 1, fun m hm => ?_⟩, hv2, hk1.trans hk2, hre2⟩
       obtain ⟨m, rfl⟩ := Nat.exists_eq_add_of_le' (by omega : 1 ≤ m)
@@ -329,7 +456,7 @@ theorem rc_stmt (n : Nat) (ih : ∀ m, m < n + 1 → RC ts k m) : StmtRef ts k (
       · rename_i hlt
         generalize hy : exec (progOf ts k) n (stmts sc body) l { σ with cnt := σ.cnt + 1 } = z at he
         obtain ⟨o2, l2, σ2⟩ := z
-        have g2 := A.stmt body sc il bf cv false l { σ with cnt := σ.cnt + 1 } E i top rest o2 l2 σ2 hg (hR.of_cnt (σ.cnt + 1)) hn hil
+        have g2 := A.stmt body sc il bf cv cb l { σ with cnt := σ.cnt + 1 } E i top rest o2 l2 σ2 hg (hR.of_cnt (σ.cnt + 1)) hn hil
           hl hσ1 hb1 hw hy
         have b2 := (G n).exec _ l _ i top rest ((emits body).stmts sc) hl hσ1 hb1 hw o2 l2 σ2 hy
         have stop : ∀ so, o2 ≠ .timeout → o2 ≠ .normal → o2 ≠ .cont →
@@ -428,8 +555,8 @@ theorem rc_stmt (n : Nat) (ih : ∀ m, m < n + 1 → RC ts k m) : StmtRef ts k (
             { E with loops := if true then 0 :: E.loops else E.loops } := by
           obtain ⟨base, hbase⟩ := hR1.loops
           exact ⟨hR1.vars, ⟨base, by simp [hbase]⟩, hR1.nb, hR1.nf, hR1.funs, hR1.mod, hR1.cview, hR1.lcaller⟩
-        have hgb' : Good sc true bf cv false body = true := by simpa [hcond] using hgb
-        obtain ⟨out2, v2, hb2, ⟨m2, e2⟩, hv2, hk2, hre2⟩ := (ih n2 (by omega)).iter x vs body sc true bf cv false true 0 l _ E i
+        have hgb' : Good sc true bf cv cb body = true := by simpa [hcond] using hgb
+        obtain ⟨out2, v2, hb2, ⟨m2, e2⟩, hv2, hk2, hre2⟩ := (ih n2 (by omega)).iter x vs body sc true bf cv cb true 0 l _ E i
           (top ++ o1) rest o2 l2 σ2 hgb' hR2 hn1 (fun _ => .inl rfl) hl (hσ1.of_eq rfl rfl) hb1 hw hy hto
         obtain ⟨bt, hl2, hw2⟩ := (G n2).iter x vs (stmts sc body) true l { σ1 with loops := ⟨vs, 0⟩ :: σ1.loops } i
           (top ++ o1) rest ((emits body).stmts sc) hl (hσ1.of_eq rfl rfl) hb1 hw o2 l2 σ2 hy hto
@@ -484,8 +611,8 @@ theorem rc_stmt (n : Nat) (ih : ∀ m, m < n + 1 → RC ts k m) : StmtRef ts k (
         have hn1 : σ1.next = [] := by rw [p1.2.2]; exact hn
         have hR2 : RelC cv l σ1 { E with loops := if false then 0 :: E.loops else E.loops } :=
           ⟨hR1.vars, hR1.loops, hR1.nb, hR1.nf, hR1.funs, hR1.mod, hR1.cview, hR1.lcaller⟩
-        have hgb' : Good sc il bf cv false body = true := by simpa [hcf] using hgb
-        obtain ⟨out2, v2, hb2, ⟨m2, e2⟩, hv2, hk2, hre2⟩ := A.iter x vs body sc il bf cv false false 0 l σ1 E i (top ++ o1) rest
+        have hgb' : Good sc il bf cv cb body = true := by simpa [hcf] using hgb
+        obtain ⟨out2, v2, hb2, ⟨m2, e2⟩, hv2, hk2, hre2⟩ := A.iter x vs body sc il bf cv cb false 0 l σ1 E i (top ++ o1) rest
           o l' σ' hgb' hR2 hn1 (fun h => .inr (hil h)) hl hσ1 hb1 hw he ho
         refine ⟨o1 ++ out2, v2, by simp [hb2], ⟨max m1 m2 + 1, fun m hm => ?_⟩, hv2, hk2, hre2⟩
         obtain ⟨m, rfl⟩ := Nat.exists_eq_add_of_le' (by omega : 1 ≤ m)
@@ -653,6 +780,6 @@ theorem rc_all (hG : GoodAll ts) : ∀ n, RC ts k n := by
   | _ n ih =>
     rcases n with _ | n
     · exact rc_zero ts k
-    · exact ⟨rc_eval ts k hG n ih, rc_args ts k n ih, rc_invoke ts k n ih, rc_stmt ts k n ih, rc_iter ts k n ih⟩
+    · exact ⟨rc_eval ts k hG n ih, rc_args ts k n ih, rc_invoke ts k n ih, rc_stmt ts k hG n ih, rc_iter ts k n ih⟩
 
 end MakoModel.Codegen.Calls
